@@ -7,6 +7,24 @@ import YashModel.Kernel.Theorems
 import YashModel.Kernel.PipeTheorems
 namespace YashModel.Kernel
 
+/-! ## `openT` (what `step` runs) and `open'` (what the laws of Theorems.lean are about) -/
+
+/-- a successful `openT` is a successful `open'`: the trailing-slash rule only ever adds failures -/
+theorem openT_ok {k k' : K} {comps : List String} {acc : Access} {f : Flags} {mode fd : Nat}
+    (h : openT k comps acc f mode = .ok fd k') : open' k comps acc f mode = .ok fd k' := by
+  unfold openT at h
+  split at h
+  · split at h
+    · simp at h
+    · split at h <;> simp at h
+  · exact h
+
+/-- … and away from O_CREAT-through-a-trailing-slash the two are the same function, so every law about
+    `open'` is a law about what the driver computes -/
+theorem openT_agrees_with_open (k : K) (comps : List String) (acc : Access) (f : Flags) (mode : Nat)
+    (h : (f.create && slashAfterName comps) = false) : openT k comps acc f mode = open' k comps acc f mode := by
+  simp [openT, h]
+
 /-! ## a failing operation has no effect -/
 
 /-- ★ Whatever the operation and the state: if the answer is an errno (ENOENT, EISDIR, EEXIST, EMFILE,
@@ -78,18 +96,98 @@ theorem append_after_truncate (k : K) (a i m : Nat) (o : Ofd) (c bs : Bytes)
     (hl : lookup k.tree o.path = some (.reg m c)) (hne : bs ≠ [])
     (hesc : guarded k comps = false) (hfd : allocFd k 0 ≠ none)
     (hr : resolve k.tree k.cwd comps = .ok o.path)
-    (hcx : (f.create && f.excl) = false) (hd : f.directory = false) (ht : f.trunc = true) :
+    (hcx : (f.create && f.excl) = false) (hd : f.directory = false) (ht : f.trunc = true)
+    (hsl : (f.create && slashAfterName comps) = false) :
     ∃ fd k1 k2, step k (.open comps acc f mode) = (k1, .num fd) ∧
       step k1 (.write a bs) = (k2, .num bs.length) ∧
       lookup k2.tree o.path = some (.reg m bs) := by
   obtain ⟨fd, k1, ho, hl1⟩ := open_trunc k comps acc f mode m o.path c hfd hr hl hcx hd ht
   have hg1 := open_keeps_other_descriptors ho hg
   obtain ⟨k2, hs, hl2, _⟩ := step_append_write k1 a i m o [] bs hg1 hw happ hp hl1 hne
-  refine ⟨fd, k1, k2, by simp [step, hesc, ho], hs, by simpa using hl2⟩
+  refine ⟨fd, k1, k2, by simp [step, hesc, openT_agrees_with_open k comps acc f mode hsl, ho], hs, by simpa using hl2⟩
 
 example : ∃ fd k1 k2, step exK4 (.open ["f"] .w { trunc := true } 0) = (k1, .num fd) ∧
     step k1 (.write 0 [9]) = (k2, .num 1) ∧ lookup k2.tree ["f"] = some (.reg 420 [9]) :=
   ⟨_, _, _, rfl, rfl, rfl⟩
+
+/-! ## O_CREAT through a trailing slash -/
+
+/-- ★ O_CREAT never creates through a trailing slash: for a path `pre/name/` (one or more slashes, `name`
+    an ordinary name) `open` with O_CREAT fails whatever `name` is — missing, a regular file or a directory —
+    and whatever the other flags are (O_EXCL included); when a descriptor is free and the directories `pre`
+    exist the error is EISDIR; and the driver's state is unchanged: no file `name` comes into being. -/
+theorem create_trailing_slash_never_creates (k : K) (pre : List String) (name : String) (n : Nat)
+    (acc : Access) (f : Flags) (mode : Nat) (hc : f.create = true)
+    (h1 : name ≠ "") (h2 : name ≠ ".") (h3 : name ≠ "..") :
+    (∃ e, openT k (pre ++ name :: List.replicate (n + 1) "") acc f mode = .err e) ∧
+    (∀ d, allocFd k 0 ≠ none → walkDirs k.tree k.cwd pre = .ok d →
+      openT k (pre ++ name :: List.replicate (n + 1) "") acc f mode = .err .EISDIR) ∧
+    (step k (.open (pre ++ name :: List.replicate (n + 1) "") acc f mode)).1 = k := by
+  obtain ⟨hd, hs⟩ := slashAfterName_shape pre name n h1 h2 h3
+  have hex : ∃ e, openT k (pre ++ name :: List.replicate (n + 1) "") acc f mode = .err e := by
+    unfold openT
+    simp only [hc, hs, Bool.and_self, if_true]
+    split
+    · exact ⟨_, rfl⟩
+    · split <;> exact ⟨_, rfl⟩
+  refine ⟨hex, ?_, ?_⟩
+  · intro d hfd hw
+    unfold openT
+    simp only [hc, hs, Bool.and_self, if_true]
+    cases ha : allocFd k 0 with
+    | none => exact absurd ha hfd
+    | some fd =>
+      have hr : resolve k.tree k.cwd (pre ++ [name]) = .ok (finalStep d name) := by
+        rw [resolve_walk k.tree pre k.cwd d name [] hw]; rfl
+      simp [hd, hr]
+  · obtain ⟨e, he⟩ := hex
+    simp only [step]
+    split
+    · rfl
+    · simp [he]
+
+example : (step exK1 (.open ["new", ""] .w { create := true } 420)).2 = .err .EISDIR ∧
+    (step exK1 (.open ["f", ""] .w { create := true, excl := true } 420)).2 = .err .EISDIR ∧
+    (step exK1 (.open ["new", ""] .w {} 420)).2 = .err .ENOENT ∧
+    (step exK1 (.open ["f", ""] .r {} 0)).2 = .err .ENOTDIR := ⟨rfl, rfl, rfl, rfl⟩
+
+
+
+theorem resolve_empties (t : Tree) (cur : Path) : ∀ m : Nat, resolve t cur (List.replicate (m + 1) "") = .ok cur := by
+  intro m
+  induction m with
+  | zero => simp [resolve, finalStep]
+  | succ m ih =>
+    rw [List.replicate_succ, List.replicate_succ, resolve]
+    simp only [stepDir, true_or, if_true]
+    rw [← List.replicate_succ]
+    exact ih
+
+/-- ★ A trailing slash demands a directory: for `pre/name/` (one or more slashes, `name` an ordinary name,
+    the directories `pre` existing) path resolution answers ENOENT when `name` is missing, ENOTDIR when it is
+    a regular file, and the directory itself when it is one — this is what `open` without O_CREAT, `stat`,
+    `chdir` and `opendir` see for such a path. -/
+theorem trailing_slash_demands_directory (t : Tree) (cwd d : Path) (pre : List String) (name : String) (n : Nat)
+    (hw : walkDirs t cwd pre = .ok d) (h1 : name ≠ "") (h2 : name ≠ ".") (h3 : name ≠ "..") :
+    resolve t cwd (pre ++ name :: List.replicate (n + 1) "") =
+      match existing t (d ++ [name]) with
+      | .missing => .error .ENOENT
+      | .reg => .error .ENOTDIR
+      | .dir => .ok (d ++ [name]) := by
+  rw [resolve_walk t pre cwd d name _ hw, List.replicate_succ, resolve]
+  simp only [stepDir, h1, h2, h3, false_or, if_false]
+  cases existing t (d ++ [name]) with
+  | missing => rfl
+  | reg => rfl
+  | dir =>
+    simp only
+    rw [← List.replicate_succ]
+    exact resolve_empties t _ n
+
+example : resolve [([], .dir 493), (["f"], .reg 420 []), (["d"], .dir 493)] [] ["f", ""] = .error .ENOTDIR ∧
+    resolve [([], .dir 493), (["f"], .reg 420 []), (["d"], .dir 493)] [] ["d", "", ""] = .ok ["d"] ∧
+    resolve [([], .dir 493), (["f"], .reg 420 []), (["d"], .dir 493)] [] ["new", ""] = .error .ENOENT := ⟨rfl, rfl, rfl⟩
+
 
 /-! ## the close-on-exec flag of every new descriptor -/
 
@@ -142,7 +240,7 @@ theorem descriptor_creation_flags (k k' : K) :
     · split at h
       · rename_i fd' k'' ho
         injection h with h1 h2; subst h1; injection h2 with h2; subst h2
-        exact getfd_of_entry _ _ _ (open_lowest_fd k _ p a f m _ ho).2.2.2.1
+        exact getfd_of_entry _ _ _ (open_lowest_fd k _ p a f m _ (openT_ok ho)).2.2.2.1
       · simp at h
   · intro fd h
     simp only [step] at h
@@ -406,7 +504,7 @@ theorem wf_step (k : K) (op : Op) (h : WF k) : WF (step k op).1 := by
     split
     · exact h
     · split
-      · rename_i hk; exact wf_open h hk
+      · rename_i hk; exact wf_open h (openT_ok hk)
       · exact h
   case read fd n => split; (rename_i hk; exact wf_readAny h hk); exact h
   case write fd bs => split; (rename_i hk; exact wf_writeAny h hk); exact h
@@ -438,6 +536,7 @@ theorem wf_step (k : K) (op : Op) (h : WF k) : WF (step k op).1 := by
   case fill fd => split; (rename_i hk; exact wf_fillPipe h hk); exact h
   case sel fd w => split <;> exact h
   case tmp => split; (rename_i hk; exact wf_tmpfile h hk); exact h
+  case isx p => split <;> exact h
 
 /-- ★ In every state the driver can reach from a well-formed initial state, by any sequence of operations,
     every open descriptor is below the limit and resolves to an open file description: the hypotheses
@@ -464,5 +563,111 @@ example : WF exK1 := by
     injection h with h; subst h
     rcases hc with h | h <;> subst h <;> decide
   · simp at h
+
+
+/-! ## command search: only regular files with an execute bit -/
+
+/-- ★ `is_executable_file` is true only for a path that resolves to a regular file with an execute bit: never
+    for a directory (although directories carry `x` bits), never for a missing file or a path that does not
+    resolve. -/
+theorem isExec_regular_only (k : K) (comps : List String) (h : isExec k comps = true) :
+    ∃ p m c, resolve k.tree k.cwd comps = .ok p ∧ lookup k.tree p = some (.reg m c) ∧ (m % 512) &&& 73 ≠ 0 := by
+  unfold isExec statPath at h
+  split at h
+  · rename_i m c hs
+    split at hs
+    · simp at hs
+    · rename_i p hr
+      split at hs
+      · simp at hs
+      · rename_i n hl
+        injection hs with hs; subst hs
+        exact ⟨p, m, c, hr, hl, by simpa using h⟩
+  · simp at h
+
+theorem isExec_directory_false (k : K) (comps : List String) (p : Path) (m : Nat)
+    (hr : resolve k.tree k.cwd comps = .ok p) (hl : lookup k.tree p = some (.dir m)) : isExec k comps = false := by
+  simp [isExec, statPath, hr, hl]
+
+/-- ★ Command search skips everything that is not an executable regular file — in particular a DIRECTORY named
+    like the command in an earlier `$PATH` entry: if no candidate `e/name` for the entries `e` before `d` is an
+    executable file and `d/name` is one, the search answers `d/name`; if no candidate is one, it finds nothing
+    (status 127, not 126). -/
+theorem search_skips_non_executables (k : K) (pre : List (List String)) (d : List String)
+    (rest : List (List String)) (name : String)
+    (hpre : ∀ e, e ∈ pre → isExec k (e ++ [name]) = false) :
+    (isExec k (d ++ [name]) = true → searchPath k (pre ++ d :: rest) name = some (d ++ [name])) ∧
+    searchPath k pre name = none := by
+  induction pre with
+  | nil => exact ⟨fun h => by simp [searchPath, h], rfl⟩
+  | cons e es ih =>
+    have he : isExec k (e ++ [name]) = false := hpre e (by simp)
+    have ih' := ih (fun x hx => hpre x (by simp [hx]))
+    exact ⟨fun h => by simp [searchPath, he, ih'.1 h], by simp [searchPath, he, ih'.2]⟩
+
+/-- ★ The empty command name is never found: `dir/` names the directory `dir` itself (or nothing), never a
+    regular file — for every `$PATH` entry that does not itself resolve to a regular file. -/
+theorem search_empty_name (k : K) (dirs : List (List String))
+    (hd : ∀ d, d ∈ dirs → ∀ p, walkDirs k.tree k.cwd d = .ok p → existing k.tree p ≠ .reg) :
+    searchPath k dirs "" = none := by
+  induction dirs with
+  | nil => rfl
+  | cons d ds ih =>
+    have hf : isExec k (d ++ [""]) = false := by
+      cases hex : isExec k (d ++ [""]) with
+      | false => rfl
+      | true =>
+        obtain ⟨p, m, c, hr, hl, _⟩ := isExec_regular_only k _ hex
+        cases hw : walkDirs k.tree k.cwd d with
+        | error e =>
+          exfalso
+          have : resolve k.tree k.cwd (d ++ [""]) = .error e := by
+            clear hr hex hd ih
+            generalize k.cwd = cur at hw ⊢
+            induction d generalizing cur with
+            | nil => simp [walkDirs] at hw
+            | cons c cs ihd =>
+              unfold walkDirs at hw
+              cases hs : stepDir k.tree cur c with
+              | error e' =>
+                rw [hs] at hw
+                simp at hw; subst hw
+                cases cs <;> simp [resolve, hs]
+              | ok cur' =>
+                rw [hs] at hw
+                have := ihd cur' hw
+                cases cs with
+                | nil => simp [walkDirs] at hw
+                | cons c2 cs2 => simpa [resolve, hs] using this
+          rw [this] at hr; simp at hr
+        | ok q =>
+          have hq : resolve k.tree k.cwd (d ++ [""]) = .ok q := by
+            rw [resolve_walk k.tree d k.cwd q "" [] hw]; simp [resolve, finalStep]
+          rw [hq] at hr; injection hr with hr; subst hr
+          exact absurd (by simp [existing, hl]) (hd d (by simp) q hw)
+    simp [searchPath, hf, ih (fun x hx => hd x (by simp [hx]))]
+
+/-- `a/foo` is a directory, `c/foo` a regular file without execute bits, `b/foo` an executable regular file -/
+def exKpath : K :=
+  { tree := [([], .dir 493), (["a"], .dir 493), (["a", "foo"], .dir 493), (["b"], .dir 493),
+             (["b", "foo"], .reg 493 []), (["c"], .dir 493), (["c", "foo"], .reg 420 [])],
+    ofds := [], fds := fun _ => none, limit := 8, umask := 18, cwd := [] }
+
+example :
+    searchPath exKpath [["a"], ["c"], ["b"]] "foo" = some ["b", "foo"] ∧ searchPath exKpath [["a"], ["c"]] "foo" = none ∧
+    searchPath exKpath [["a"], ["b"]] "" = none ∧ isExec exKpath ["a", "foo"] = false ∧ isExec exKpath [""] = false := by
+  decide
+
+/-- the hypotheses of `search_skips_non_executables` / `search_empty_name` on that state -/
+example : (∀ e, e ∈ [["a"], ["c"]] → isExec exKpath (e ++ ["foo"]) = false) ∧ isExec exKpath (["b"] ++ ["foo"]) = true ∧
+    (∀ d, d ∈ [["a"], ["b"]] → ∀ p, walkDirs exKpath.tree exKpath.cwd d = .ok p → existing exKpath.tree p ≠ .reg) := by
+  refine ⟨by decide, by decide, ?_⟩
+  intro d hd p hp
+  simp at hd
+  rcases hd with h | h <;> subst h <;> (simp [walkDirs, stepDir, existing, lookup, exKpath] at hp; subst hp; decide)
+
+example : (({} : Flags).create && slashAfterName ["f"]) = false ∧
+    (({ create := true } : Flags).create && slashAfterName ["d1", "new"]) = false ∧
+    (({ create := true } : Flags).create && slashAfterName ["new", ""]) = true := by decide
 
 end YashModel.Kernel
